@@ -122,6 +122,14 @@ def concretise(state, seed):
             kw["maxfun"] = 0
         if a["gap"] == "narrow":
             kw["bounds"] = (np.array([-0.05, -5.0]), np.array([0.1, 5.0]))
+        elif a["gap"] == "scaled_ok":        # in scaled units every box is [0,1]^n: 2*rhobeg = 0.2 <= 1 although the user box is narrower than 0.2
+            kw.update(bounds=(np.array([-0.05, -5.0]), np.array([0.1, 5.0])), scaling_within_bounds=True)
+        elif a["gap"] == "scaled_narrow":    # wide user box, but rhobeg = 0.6 scaled units > half the scaled box
+            kw.update(bounds=(np.array([-10.0, -10.0]), np.array([10.0, 10.0])), scaling_within_bounds=True)
+            if a["rhobeg"] == "ok":
+                kw["rhobeg"] = 0.6
+                if kw["rhoend"] == 0.2:
+                    kw["rhoend"] = 0.7
         if a["safety"] == "both":
             up.update({"growing.safety.full_geom_step": True, "growing.safety.reduce_delta": True})
         if a["grow"] == "both":
@@ -253,7 +261,7 @@ def run(tier):
         rng = np.random.default_rng([vlib.seed(), 70])
         arg = [s for s in states if s["kind"] == "arg"]
         keep = set(int(i) for i in rng.choice(len(arg), size=len(arg) // 4, replace=False))
-        sel = [s for i, s in enumerate(arg) if i in keep or sum(1 for v in s["st"].values() if v not in ("ok", "none")) <= 2]
+        sel = [s for i, s in enumerate(arg) if i in keep or sum(1 for v in s["st"].values() if v not in ("ok", "none", "scaled_ok")) <= 2]
         states = sel + [s for s in states if s["kind"] != "arg"]
     ctx = mp.get_context("fork")
     with ctx.Pool(min(16, vlib.NCPU)) as pool:
